@@ -302,6 +302,17 @@ def normalize_resources_qs_param(qs):
                 'amount': amount,
             }
             raise webob.exc.HTTPBadRequest(msg)
+        if rc_name in result:
+            # Keeping only one of the amounts would silently ignore the
+            # other entry.
+            msg = ('Badly formed resources parameter. Resource class '
+                   '%(resource_name)s is specified more than once. Got: '
+                   '%(qs)s.')
+            msg = msg % {
+                'resource_name': rc_name,
+                'qs': qs,
+            }
+            raise webob.exc.HTTPBadRequest(msg)
         if amount > _MAX_AMOUNT:
             # The amount is compared with integer columns in the database; a
             # value that does not fit a signed 64-bit integer cannot be bound
